@@ -122,6 +122,40 @@ fn classify(doc: &Value) -> Option<&'static str> {
             _ => {}
         }
     }
+    // several objects WITHOUT an identifier below one flattened field (through any nesting of arrays, not through
+    // objects): the generated identifier is derived from the path alone, so they all get the same one (known finding)
+    fn idless(v: &Value, top: bool, n: &mut usize, found: &mut bool) {
+        match v {
+            Value::Array(a) => a.iter().for_each(|e| idless(e, false, n, found)),
+            Value::Object(o) => {
+                if !top && !o.contains_key("_id") {
+                    *n += 1;
+                    if *n > 1 {
+                        *found = true;
+                    }
+                }
+                for (k, val) in o {
+                    if k.ends_with(FLAT) {
+                        let mut m = 0;
+                        idless(val, false, &mut m, found);
+                    }
+                }
+            }
+            _ => {}
+        }
+    }
+    let mut dup = false;
+    if let Value::Object(o) = doc {
+        for (k, val) in o {
+            if k.ends_with(FLAT) {
+                let mut m = 0;
+                idless(val, false, &mut m, &mut dup);
+            }
+        }
+    }
+    if dup {
+        return Some("several-idless-objects-under-one-flattened-field");
+    }
     let mut f = None;
     walk(doc, true, false, &mut f);
     f
@@ -331,6 +365,149 @@ pub fn custom_root_sweep(rep: &mut Report, thorough: bool) {
     rep.set("custom_root_sweep", json!({"documents": n, "max_sequence_length": len, "sequences": all.len() * 2, "update_read_checks": evals}));
 }
 
+/// All values of a small grammar up to a nesting bound, placed in a flattened field and in a plain field of a
+/// fresh replica: update, read (== expectation), update again (nothing staged anew), commit, reopen, read.
+/// Grammar: atoms (strings incl. the prefix characters and the empty string, numbers, null, bool), [], {},
+/// arrays of one / two values, plain objects with one key, objects with an explicit identifier (with a scalar, and
+/// with a nested flattened field), objects without an identifier.
+pub fn shape_sweep(rep: &mut Report, thorough: bool) {
+    use rayon::prelude::*;
+    let atoms: Vec<Value> = vec![json!("s"), json!("!b"), json!("^c"), json!(""), json!(1), json!(2.5), json!(null), json!(true)];
+    let mut level0: Vec<Value> = atoms.clone();
+    level0.push(json!([]));
+    level0.push(json!({}));
+    let ids = ["x", "y", "z", "w"];
+    fn used_ids(v: &Value, out: &mut Vec<String>) {
+        match v {
+            Value::Object(o) => {
+                if let Some(i) = o.get("_id").and_then(|x| x.as_str()) {
+                    out.push(i.to_string());
+                }
+                for val in o.values() {
+                    used_ids(val, out);
+                }
+            }
+            Value::Array(a) => a.iter().for_each(|e| used_ids(e, out)),
+            _ => {}
+        }
+    }
+    // explicit identifiers must be unique within a document (assumed by the statement)
+    let unique = |v: &Value| -> bool {
+        let mut u = vec![];
+        used_ids(v, &mut u);
+        let n = u.len();
+        u.sort();
+        u.dedup();
+        u.len() == n
+    };
+    let wrap = |inner: &[Value], pair_with: &[Value], id: &str| -> Vec<Value> {
+        let mut out = vec![];
+        for v in inner {
+            out.push(json!([v]));
+            out.push(json!({"k": v}));
+            out.push(json!({"_id": id, "n♭": v}));
+            out.push(json!({"_id": id, "p": v}));
+            out.push(json!({"q": v}));
+            out.push(json!({"q♭": v}));
+        }
+        for a in pair_with {
+            for b in pair_with {
+                out.push(json!([a, b]));
+            }
+        }
+        out
+    };
+    let mut level1 = level0.clone();
+    level1.extend(wrap(&level0, &level0, ids[0]));
+    // a reduced set for pairs at the next level: one representative per construction
+    let reduced: Vec<Value> = vec![json!("s"), json!("!b"), json!(1), json!(null), json!([]), json!({}), json!(["s"]), json!([1, "^c"]), json!({"k": "s"}), json!({"q": 1}), json!({"q♭": ["s"]}),
+        json!({"_id": ids[2], "p": 1}), json!({"_id": ids[3], "n♭": ["s", {"_id": "v", "p": "!b"}]})];
+    let mut level2 = level1.clone();
+    level2.extend(wrap(&level1, &reduced, ids[1]));
+    let values: Vec<Value> = if thorough {
+        let mut l3 = level2.clone();
+        l3.extend(wrap(&level2, &[], "u"));
+        l3
+    } else {
+        level2
+    };
+    let mut docs: Vec<Value> = vec![];
+    for v in &values {
+        if !unique(v) {
+            continue;
+        }
+        docs.push(json!({"f♭": v}));
+        docs.push(json!({"a": v, "f♭": [{"_id": "e", "p": 0}]}));
+    }
+    let evals = std::sync::atomic::AtomicU64::new(0);
+    let classes: std::sync::Mutex<BTreeMap<String, u64>> = std::sync::Mutex::new(BTreeMap::new());
+    let bad: std::sync::Mutex<Vec<(usize, String, Value)>> = std::sync::Mutex::new(vec![]);
+    docs.par_iter().enumerate().for_each(|(i, d)| {
+        let doc = d.as_object().unwrap().clone();
+        let want = expect_tracked(&doc, &[]);
+        let st = crate::adapter::Store::new();
+        crate::guard::set_trace("C04 shape sweep");
+        let m = melda::melda::Melda::new(st.adapter()).unwrap();
+        let fail = |what: &str, detail: Value| {
+            let mut b = bad.lock().unwrap();
+            b.push((i, what.to_string(), json!({"input": {"document": d}, "expected": want, "observed": detail})));
+        };
+        evals.fetch_add(1, std::sync::atomic::Ordering::Relaxed);
+        match crate::guard::call("update", || m.update(doc.clone()).map_err(|e| e.to_string())) {
+            Ok(Ok(_)) => {}
+            Ok(Err(e)) => {
+                // a refusal with an error is not "reading something else": counted, not a violation of C04
+                *classes.lock().unwrap().entry(format!("update-refused:{}", e.chars().take(40).collect::<String>())).or_insert(0) += 1;
+                return;
+            }
+            Err(p) => return fail("update-panicked", json!({"panic": p})),
+        }
+        let r1 = read_doc(&m);
+        if !r1.get("ok").is_some_and(|g| same_doc(&want, g)) {
+            return fail("read-differs-from-submitted-document", r1);
+        }
+        let stage1 = crate::guard::call("stage", || m.stage().ok().flatten()).ok().flatten();
+        if let Ok(Ok(_)) = crate::guard::call("update", || m.update(doc.clone()).map_err(|e| e.to_string())) {
+            let stage2 = crate::guard::call("stage", || m.stage().ok().flatten()).ok().flatten();
+            if stage1 != stage2 {
+                return fail("resubmitting-the-same-document-staged-something", json!({"stage_before": stage1, "stage_after": stage2}));
+            }
+        }
+        match crate::guard::call("commit", || m.commit(None).map(|x| x.is_some()).map_err(|e| e.to_string())) {
+            Ok(Ok(_)) => {}
+            Ok(Err(e)) => return fail("commit-failed", json!({"error": e})),
+            Err(p) => return fail("commit-panicked", json!({"panic": p})),
+        }
+        let r2 = read_doc(&m);
+        if !r2.get("ok").is_some_and(|g| same_doc(&want, g)) {
+            return fail("read-after-commit-differs", r2);
+        }
+        match fresh_on(&st.snapshot(), "C04 shape sweep reopen") {
+            Ok((m2, _)) => {
+                let r3 = read_doc(&m2);
+                if r3 != r2 {
+                    return fail("reopened-read-differs", json!({"live": r2, "reopened": r3}));
+                }
+            }
+            Err(e) => return fail("reopen-failed", json!({"error": e})),
+        }
+        *classes.lock().unwrap().entry("round-trip-exact".into()).or_insert(0) += 1;
+    });
+    let mut b = bad.into_inner().unwrap();
+    b.sort_by_key(|x| x.0);
+    let mut seen = std::collections::BTreeSet::new();
+    let failing = b.len();
+    for (_, what, detail) in b {
+        let class = classify(&detail["input"]["document"]).map(|c| format!(":{}", c)).unwrap_or_default();
+        let sig = format!("C04:shape-sweep:{}{}", what, class);
+        if seen.insert(sig.clone()) {
+            rep.violations.push(Violation { property: "C04".into(), signature: sig, scenario: "shape-sweep".into(), history: vec![], detail });
+        }
+    }
+    rep.add_u64("evaluations", evals.load(std::sync::atomic::Ordering::Relaxed));
+    rep.set("shape_sweep", json!({"values_of_the_grammar": values.len(), "documents": docs.len(), "failing_documents": failing, "outcomes": classes.into_inner().unwrap()}));
+}
+
 pub fn run(thorough: bool) {
     let mut rep = Report::new("C04", if thorough { "thorough" } else { "quick" }, "model_checking");
     run_h(&mut rep, RunCfg {
@@ -342,8 +519,9 @@ pub fn run(thorough: bool) {
         stop_on_violation: false,
     });
     custom_root_sweep(&mut rep, thorough);
+    shape_sweep(&mut rep, thorough);
     rep.set("rule", json!("in EVERY distinct state (committed or staged, merged or not, object / array conflicts or not) and for EVERY document D of the menu (array edits, objects moving between arrays, flattened keys appearing / disappearing / changing kind, nested flattened arrays, id-less objects, '!'/'^' prefixed strings and ids, scalars, empty objects): update(D) then read(). If no array descriptor is in conflict the result must equal an independently computed expectation (D with _id added to each tracked object) exactly; otherwise the multiset of tracked objects and their contents must match. Then update(D) again: canonical replica state, stage export and read unchanged. In every state without staging: commit returns None, storage and state unchanged. distinct_nontrivial = distinct read results"));
-    rep.assume("well-formed documents: elements of flattened arrays carry unique string _id values not starting with '^'; the root has no _id");
+    rep.assume("well-formed documents: explicit _id values are unique strings not starting with '^'; the root has no _id (objects without _id are in scope: identifiers are generated - see the known finding about several of them under one flattened field)");
     finalize(&mut rep);
     rep.finish();
 }
